@@ -18,6 +18,9 @@ func isNodeEntry(fd *ast.FieldDefinition) bool {
 func isRootName(n string) bool { return n == "Query" || n == "Mutation" || n == "Subscription" }
 
 func checkC04(c *MergeCase) *ev.Failure {
+	if c.Warmup != "" {
+		runMerge(c.World, c.Order, c.Warmup)
+	}
 	res, err, pan := runMerge(c.World, c.Order, c.Merger)
 	if pan != "" {
 		return ev.Failf("panic", "Merge panicked: %s", pan)
